@@ -253,7 +253,7 @@ fn replay() {
 TN = "similari::track::voting::topn::TopNVoting::winners"
 BF = "similari::track::voting::best::BestFitVoting::winners"
 MIR = []
-for (nq, nt, nr, tier) in [(1, 1, 1, 'quick'), (1, 2, 2, 'quick'), (2, 2, 2, 'quick'), (2, 2, 3, 'thorough'), (2, 2, 4, 'thorough'), (2, 3, 3, 'thorough')]:
+for (nq, nt, nr, tier) in [(1, 1, 1, 'quick'), (1, 2, 2, 'quick'), (2, 2, 2, 'quick'), (2, 2, 3, 'thorough'), (2, 2, 4, 'thorough'), (2, 3, 3, 'thorough'), (3, 2, 3, 'thorough')]:
     MIR.append(MQ("c17_topn_q%d_t%d_r%d" % (nq, nt, nr), tier, _mk_topn(nq, nt, nr),
                   "TopNVoting::winners = oracle (counts, weights, <= N per query by decreasing weight), for every HashMap iteration order",
                   "%d queries x %d tracks, stream of %d results (ids chosen by z3), distances on the exact grid or None, N,min_votes <= 3, max_distance free" % (nq, nt, nr),
